@@ -578,11 +578,66 @@ def oracle_configs(ctx: Ctx, deep: bool):
             base.append(f)
     n = ctx.budget(70, 2500) * (3 if deep else 1)
     for _ in range(n):
-        base.append({**random_flags(rng, valid_only=True), "delete_kspace": rng.choice([0, 0, 1])})
+        base.append({**random_flags(rng, valid_only=True), "delete_kspace": rng.choice([0, 0, 1]),
+                     "compress_coils": rng.choice([0, 0, 0, 1])})
     return base
 
 
+def _guarded(gen, rep):
+    """an exception of the implementation escaping from a check is a finding, not a tool failure"""
+    try:
+        yield from gen
+    except ImplError as e:
+        yield Violation("pipeline-raises", f"the composed transform raises {e}", {**rep, "observed": str(e)})
+
+
+def observations() -> list[dict]:
+    """Three behaviours of the current code that lie outside the property's quantifier, each with an exact repro
+    (run on every check; recorded in the evidence notes, never reported as violations)."""
+    import direct.data.transforms as T
+
+    out = []
+
+    def attempt(title, repro, thunk):
+        try:
+            thunk()
+            observed = "no exception"
+        except ImplError as e:
+            observed = f"{type(e.inner).__name__}: {str(e.inner)[:160]}"
+        except Exception as e:  # noqa: BLE001
+            observed = f"{type(e).__name__}: {str(e)[:160]}"
+        out.append({"observation": title, "repro": repro, "observed": observed})
+
+    zero = np.zeros((2, 8, 6), dtype=np.complex64)
+    attempt("an identically zero masked k-space with scale_percentile set makes ComputeScalingFactor raise "
+            "(torch.kthvalue on an empty tensor); scale_percentile=None returns scaling_factor 0 and all-zero outputs",
+            "build_mri_transforms(fft2, ifft2, FastMRIRandom(acc=4, cf=0.25), scale_percentile=0.99)"
+            "({'kspace': np.zeros((2, 8, 6), complex64), 'filename': 'file_a.h5', 'slice_no': 0})",
+            lambda: run_real(build_real(default_flags(), _mask_func(), T.fft2, T.ifft2), raw_sample(zero)))
+    g = np.random.RandomState(0)
+    k = (g.randn(2, 8, 6) + 1j * g.randn(2, 8, 6)).astype(np.complex64)
+    attempt("scaling_key='body_coil_image' cannot work: ComputeScalingFactor applies T.modulus, which asserts a complex "
+            "(last axis 2) tensor, to the real body-coil image",
+            "build_mri_transforms(fft2, ifft2, mask, estimate_body_coil_image=True, scaling_key='body_coil_image')"
+            "({'kspace': RandomState(0) randn (2, 8, 6) complex64, 'filename': 'file_a.h5', 'slice_no': 0})",
+            lambda: run_real(build_real({**default_flags(), "body_coil": 1, "scaling_key": 2}, _mask_func(), T.fft2, T.ifft2),
+                             raw_sample(k)))
+    attempt("a tuple `crop` combined with `pad` (or `rescale`): CreateSamplingMask builds the mask for the crop shape while "
+            "the k-space has the padded shape, so ApplyMask fails to broadcast",
+            "build_mri_transforms(fft2, ifft2, mask, crop=(6, 4), pad=(8, 6))"
+            "({'kspace': RandomState(0) randn (2, 8, 6) complex64, 'filename': 'file_a.h5', 'slice_no': 0})",
+            lambda: run_real(build_real({**default_flags(), "crop": 1, "pad": 1}, _mask_func(), T.fft2, T.ifft2,
+                                        crop_shape=(6, 4), pad_shape=(8, 6)), raw_sample(k)))
+    return out
+
+
 def oracle(ctx: Ctx, deep: bool = False):
+    if not any(isinstance(n, dict) and "observation" in n for n in ctx.notes):
+        ctx.notes.extend(observations())
+    yield from _oracle(ctx, deep)
+
+
+def _oracle(ctx: Ctx, deep: bool = False):
     """The property stated directly on the implementation."""
     import direct.data.transforms as T
     from direct.data.mri_transforms import ComputeImage
@@ -610,7 +665,7 @@ def oracle(ctx: Ctx, deep: bool = False):
         ctx.count(("oracle", tuple(flag_list(f)), tuple(k.shape), seed), True, bucket=bucket,
                   sample={"flags": {n: f[n] for n in ("crop", "recon", "smap_type", "scaling_key", "percentile", "ssl")},
                           "shape": list(k.shape)})
-        yield from check_config(cfg, k)
+        yield from _guarded(check_config(cfg, k), {"op": "pipeline", **cfg})
     # (i') extreme power-of-two scales (k-space magnitudes far below float32 eps / far above 1): nothing in the pipeline
     #      may compare against an absolute constant (a clamp of the scaling factor, an absolute threshold, ...)
     for sk, pct, ssl in itertools.product((0, 1), (0, 1), (0, 1)):
@@ -622,7 +677,7 @@ def oracle(ctx: Ctx, deep: bool = False):
             cfg = {"flags": f, "seed": rng.randrange(2 ** 31), "shape": [rng.choice([1, 3]), rng.choice([8, 9, 10]), rng.choice([8, 11])],
                    "percentile": rng.choice([0.99, 0.9]), "centered": rng.random() < 0.7}
             ctx.count(("ladder", tuple(flag_list(f)), cfg["seed"], tuple(cfg["shape"])), True, bucket="oracle/scale-ladder")
-            yield from check_scale_ladder(cfg)
+            yield from _guarded(check_scale_ladder(cfg), {"op": "scale_ladder", **cfg})
     # (v') a scaling factor of exactly zero (empty slice, or signal only where the mask does not sample): the safe
     #      division must leave every output finite (zero), never NaN/Inf
     for sk, mode in ((0, "all-zero"), (1, "all-zero"), (0, "unsampled")):
@@ -635,7 +690,22 @@ def oracle(ctx: Ctx, deep: bool = False):
                        "mode": mode, "centered": rng.random() < 0.7}
                 ctx.count(("zero-sf", tuple(flag_list(f)), cfg["seed"], tuple(cfg["shape"]), mode), True,
                           bucket="oracle/zero-scaling-factor/" + mode)
-                yield from check_zero_sf(cfg)
+                yield from _guarded(check_zero_sf(cfg), {"op": "zero_scaling_factor", **cfg})
+    # (vi') random crop seeded by the file name: all slices of a file are cropped at the same offset
+    for _ in range(ctx.budget(6, 40)):
+        cfg = {"seed": rng.randrange(2 ** 31), "name": "vol_%d.h5" % rng.randrange(1000),
+               "shape": [rng.choice([1, 2]), rng.choice([0, 0, 3]), rng.choice([9, 12, 13]), rng.choice([10, 14, 15])],
+               "crop": [rng.randint(3, 8), rng.randint(3, 9)], "sampler": rng.choice(["uniform", "gaussian"])}
+        ctx.count(("samecrop", cfg["seed"], cfg["name"], tuple(cfg["shape"]), tuple(cfg["crop"])), True, bucket="oracle/same-filename-crop")
+        yield from _guarded(check_same_crop(cfg), {"op": "same_crop", **cfg})
+    # (vii) ModuleWrapper(toggle_dims=True): the wrapped module on an un-batched sample == element 0 of `forward` on a
+    #       batch of two copies (and of one), for every wrapped module class
+    for _ in range(ctx.budget(3, 20)):
+        cfg = {"seed": rng.randrange(2 ** 31), "shape": [rng.choice([2, 3, 4]), rng.choice([0, 0, 2]), rng.choice([6, 7, 8]), rng.choice([8, 9])]}
+        for name in WRAPPED:
+            c2 = {**cfg, "module": name}
+            ctx.count(("wrapper", name, cfg["seed"], tuple(cfg["shape"])), True, bucket="oracle/module-wrapper/" + name.split("/")[0])
+            yield from _guarded(check_wrapper(c2), {"op": "wrapper", **c2})
     # (vi) one mask per file name — also across different k-space values and slice numbers
     for f in (default_flags(), {**default_flags(), "ssl": 1, "delete_kspace": 0}, {**default_flags(), "crop": 1, "padding_eps": 0}):
         for _ in range(ctx.budget(6, 40)):
@@ -643,7 +713,8 @@ def oracle(ctx: Ctx, deep: bool = False):
             name = "file_%d.h5" % rng.randrange(1000)
             nc, h, w = rng.choice([1, 3]), rng.choice([8, 10, 11]), rng.choice([16, 20, 23])
             ctx.count(("samefile", tuple(flag_list(f)), name, h, w), True, bucket="oracle/same-filename")
-            yield from check_same_filename({"flags": f, "seed": seed, "name": name, "shape": [nc, h, w]})
+            sf_cfg = {"flags": f, "seed": seed, "name": name, "shape": [nc, h, w]}
+            yield from _guarded(check_same_filename(sf_cfg), {"op": "same_filename", **sf_cfg})
 
 
 def _build_for(cfg, mask_func=None):
@@ -869,6 +940,113 @@ def check_zero_sf(cfg):
             yield Violation("masked-not-mask-of-normalised", "masked_kspace != apply_mask(kspace, sampling_mask) (scaling factor 0)", rep)
 
 
+def check_same_crop(cfg):
+    """CropKspace(random, seeded) with identity operators on a position-labelled k-space: the labels that survive
+    reveal the crop offset, which must be the same for all slices of one file"""
+    from direct.data.mri_transforms import CropKspace
+
+    nc, ns, h, w = cfg["shape"]
+    shape = (nc, ns, h, w) if ns else (nc, h, w)
+    lab = np.arange(int(np.prod(shape)), dtype=np.float32).reshape(shape) + 1
+    k = torch.from_numpy(np.stack([lab, -lab], -1))
+    tr = CropKspace(crop=tuple(cfg["crop"]), forward_operator=_ident, backward_operator=_ident, image_space_center_crop=False,
+                    random_crop_sampler_type=cfg["sampler"], random_crop_sampler_use_seed=True)
+    outs = []
+    for sl in (0, 1, 5):
+        np.random.seed(cfg["seed"] + sl)          # the global numpy state differs between slices, as in a data loader
+        outs.append(run_real(tr, {"kspace": k.clone(), "filename": cfg["name"], "slice_no": sl})["kspace"])
+    want = tuple(shape[:-2]) + tuple(cfg["crop"]) + (2,)
+    for o, sl in zip(outs, (0, 1, 5)):
+        if tuple(o.shape) != want:
+            yield Violation("crop-shape-kspace", f"random crop gives shape {tuple(o.shape)}, requested {want}",
+                            {"op": "same_crop", **cfg, "slice": sl})
+        elif not torch.equal(o, outs[0]):
+            yield Violation("crop-differs-within-file", f"slices 0 and {sl} of one file are cropped at different offsets",
+                            {"op": "same_crop", **cfg, "slice": sl})
+
+
+WRAPPED = ["ComputeImage/ifft", "ComputeImage/rss", "ComputeImage/complex", "ComputeImage/complex_mod", "ComputeImage/sense",
+           "ComputeImage/sense_mod", "EstimateSensitivityMap/unit", "EstimateSensitivityMap/rss_estimate", "CompressCoil",
+           "PadCoilDimension", "ComputeScalingFactor/percentile", "ComputeScalingFactor/max", "GaussianMaskSplitter",
+           "UniformMaskSplitter"]
+
+
+def check_wrapper(cfg):
+    import direct.data.mri_transforms as M
+    import direct.data.transforms as T
+    from direct.types import KspaceKey, TransformKey
+
+    nc, ns, h, w = cfg["shape"]
+    name = cfg["module"]
+    if ns and name.endswith("MaskSplitter"):
+        ns = 0          # the splitters' 3-D mask layout is produced by the pipeline itself (covered by pipeline/ssl/3d)
+    k = _gauss_sample(cfg["seed"], nc, ns, h, w, 0, False)
+    kt = torch.from_numpy(np.stack([k.real, k.imag], -1)).float()
+    mshape = (1, 1, h, w, 1) if ns else (1, h, w, 1)
+    g = torch.Generator().manual_seed(cfg["seed"])
+    mask = torch.rand(mshape, generator=g) < 0.5
+    mask[..., w // 2 - 1: w // 2 + 1, :] = True
+    acs = torch.zeros(mshape, dtype=torch.bool)
+    acs[..., w // 2 - 1: w // 2 + 1, :] = True
+    smap = torch.from_numpy(np.stack([_gauss_sample(cfg["seed"] + 1, nc, ns, h, w, 0, False).real,
+                                      _gauss_sample(cfg["seed"] + 2, nc, ns, h, w, 0, False).imag], -1)).float()
+    masked = torch.where(mask == 0, torch.tensor([0.0]), kt)
+    sample = {"kspace": kt, "masked_kspace": masked, "sampling_mask": mask, "acs_mask": acs, "sensitivity_map": smap,
+              "filename": "file_w.h5", "slice_no": 3}
+    kind, _, arg = name.partition("/")
+    bwd = functools.partial(T.ifft2, centered=True)
+    if kind == "ComputeImage":
+        wrapped = M.ComputeImage(kspace_key=KspaceKey.KSPACE, target_key=TransformKey.TARGET, backward_operator=bwd,
+                                 type_reconstruction=arg)
+    elif kind == "EstimateSensitivityMap":
+        wrapped = M.EstimateSensitivityMap(kspace_key=KspaceKey.KSPACE, backward_operator=bwd, type_of_map=arg)
+    elif kind == "CompressCoil":
+        wrapped = M.CompressCoil(num_coils=max(1, nc - 1), kspace_key=KspaceKey.KSPACE)
+    elif kind == "PadCoilDimension":
+        wrapped = M.PadCoilDimension(pad_coils=nc + 2, key=KspaceKey.KSPACE)
+    elif kind == "ComputeScalingFactor":
+        wrapped = M.ComputeScalingFactor(normalize_key=TransformKey.MASKED_KSPACE, percentile=0.9 if arg == "percentile" else None,
+                                         scaling_factor_key=TransformKey.SCALING_FACTOR)
+    elif kind == "GaussianMaskSplitter":
+        wrapped = M.GaussianMaskSplitter(ratio=0.4, acs_region=(0, 0), keep_acs=False, use_seed=True,
+                                         kspace_key=KspaceKey.MASKED_KSPACE, std_scale=3.0)
+    else:
+        wrapped = M.UniformMaskSplitter(ratio=0.4, acs_region=(0, 0), keep_acs=False, use_seed=True,
+                                        kspace_key=KspaceKey.MASKED_KSPACE)
+    if not getattr(wrapped, "toggle_dims", False):
+        yield Violation("module-wrapper-not-toggling", f"{name} is not wrapped with toggle_dims=True", {"op": "wrapper", **cfg})
+        return
+
+    def clone(s_):
+        return {kk: (v.clone() if isinstance(v, torch.Tensor) else v) for kk, v in s_.items()}
+
+    got = run_real(wrapped, clone(sample))
+    module = wrapped._transform
+    for batch in (1, 2):
+        b = {kk: (torch.stack([v.clone() for _ in range(batch)], 0) if isinstance(v, torch.Tensor) else [v] * batch)
+             for kk, v in sample.items()}
+        try:
+            out = module.forward(b)
+        except (KeyboardInterrupt, SystemExit):
+            raise
+        except BaseException as e:  # noqa: BLE001
+            raise ImplError(e) from e
+        for kk, v in out.items():
+            kk = str.__str__(kk)
+            exp = v[0]
+            have = got.get(kk)
+            if isinstance(exp, torch.Tensor):
+                same = isinstance(have, torch.Tensor) and have.shape == exp.shape and (
+                    torch.equal(have, exp) if have.dtype == torch.bool else _close(have, exp, 1e-5))
+            else:
+                same = have == exp
+            if not same:
+                yield Violation("module-wrapper-" + kind, f"{name}: key `{kk}` of the wrapped call differs from element 0 of "
+                                f"forward on a batch of {batch}", {"op": "wrapper", **cfg, "key": kk, "batch": batch})
+        if set(str.__str__(x) for x in out) != set(str.__str__(x) for x in got):
+            yield Violation("module-wrapper-" + kind, f"{name}: key sets differ", {"op": "wrapper", **cfg, "batch": batch})
+
+
 def check_same_filename(cfg):
     f = cfg["flags"]
     nc, h, w = cfg["shape"]
@@ -909,6 +1087,12 @@ def replay(rep: dict) -> bool:
         if op == "zero_scaling_factor":
             cfg = {kk: rep[kk] for kk in ("flags", "seed", "shape", "mode", "centered") if kk in rep}
             return any(True for _ in check_zero_sf(cfg))
+        if op == "same_crop":
+            cfg = {kk: rep[kk] for kk in ("seed", "name", "shape", "crop", "sampler")}
+            return any(True for _ in check_same_crop(cfg))
+        if op == "wrapper":
+            cfg = {kk: rep[kk] for kk in ("seed", "shape", "module")}
+            return any(True for _ in check_wrapper(cfg))
         if op == "same_filename":
             cfg = {kk: rep[kk] for kk in ("flags", "seed", "name", "shape")}
             return any(True for _ in check_same_filename(cfg))
